@@ -30,7 +30,43 @@ def spec_strategy(draw):
     spec['capacity'] = draw(st.sampled_from([1, 1, 2, 3, 4, 6]))
     spec['src_delays'] = draw(sl.delays_strategy(3))
     spec['sched'] = draw(sched_strategy(max_len=120, est_steps=1500, depth=3))
+    # the submitting function itself may refuse an element (raise instead of returning a future), like AsyncServer._enqueue on a full server
+    spec['submit_fails'] = [draw(st.sampled_from(xs))] if xs and spec['family'] == 'fifo' and spec['pre'] != 'extract' and draw(st.integers(0, 3)) == 0 else []
     return spec
+
+
+def _submit_exc(xx):
+    return sl.make_exc('CustomError', 2, 'submit ' + repr(xx))
+
+
+def reference_fifo(spec):
+    """sequential meaning of fifo_stream when the submitting function may raise: that ends the stream (after the earlier results), whatever return_exceptions says"""
+    xs = [c01.untuple(v) for v in spec['xs']]
+    sf = [c01.untuple(v) for v in spec.get('submit_fails') or []]
+    f = c01.make_f(spec['fails'], spec['exc'], [0.0], None, timed=False)
+    pre = c01.make_pre(spec['pre'], spec['pre_fails'], spec['exc'])
+    outs, term = [], 'end'
+    for x in xs:
+        try:
+            xx = x if pre is None else pre(x)
+        except Exception as e:
+            if not spec['rexc']:
+                term = sl.norm(e)
+                break
+            outs.append(sl.norm((x, e) if spec['rx'] else e))
+            continue
+        if xx in sf:
+            term = sl.norm(_submit_exc(xx))
+            break
+        try:
+            y = f(xx)
+        except Exception as e:
+            if not spec['rexc']:
+                term = sl.norm(e)
+                break
+            y = e
+        outs.append(sl.norm((x, y) if spec['rx'] else y))
+    return outs, term
 
 
 async def _asource(xs, delays):
@@ -53,6 +89,7 @@ def _variant(spec, name, log):
     f = c01.make_f(spec['fails'], spec['exc'], spec['delays'], log)
     af = c01.make_af(spec['fails'], spec['exc'], spec['delays'], log)
     common = dict(return_x=spec['rx'], return_exceptions=spec['rexc'], **kw)
+    sf = [c01.untuple(v) for v in spec.get('submit_fails') or []]
 
     def sync_run(make_it):
         def scenario():
@@ -81,7 +118,13 @@ def _variant(spec, name, log):
 
         def mk():
             pool = ThreadPoolExecutor(spec['c'])
-            return fifo_stream(iter(xs), lambda x: pool.submit(f, x, loud_exception=False), capacity=spec['capacity'], **common), [pool.shutdown]
+
+            def submit(x):
+                if x in sf:
+                    raise _submit_exc(x)
+                return pool.submit(f, x, loud_exception=False)
+
+            return fifo_stream(iter(xs), submit, capacity=spec['capacity'], **common), [pool.shutdown]
 
         return sync_run(mk)
     if name == 'async_fifo_stream':
@@ -90,6 +133,8 @@ def _variant(spec, name, log):
             loop = asyncio.get_running_loop()
 
             async def func(x):
+                if x in sf:
+                    raise _submit_exc(x)
                 return loop.create_task(af(x))
 
             return async_fifo_stream(_asource(xs, spec['src_delays']), func, capacity=spec['capacity'], **common), []
@@ -108,7 +153,10 @@ def _variant(spec, name, log):
 
 def run_case(spec):
     names = ['fifo_stream', 'async_fifo_stream'] if spec['family'] == 'fifo' else ['Parmapper', 'ParmapperAsync', 'AsyncParmapper', 'AsyncParmapperAsync']
-    exp_outs, exp_term, _ = c01.reference(spec)
+    if spec['family'] == 'fifo' and spec.get('submit_fails'):
+        exp_outs, exp_term = reference_fifo(spec)
+    else:
+        exp_outs, exp_term, _ = c01.reference(spec)
     results = {}
     inv_total = 0
     steps = 0
